@@ -142,6 +142,7 @@ def plan_multi(families, length, nconn=(2, 3), churn=True, mutate=0.04, weights=
                 yield ('open', nextc)
                 nextc += 1
             else:
+                live = [x for x in live if s.impl.socks[x]._parser.gi_frame is not None] or live
                 c = rng.choice(live)
                 fam = rng.choices(fams, weights)[0] if weights else rng.choice(fams)
                 f = g.command(rng.choice(gen.FAMILY[fam]))
@@ -152,7 +153,7 @@ def plan_multi(families, length, nconn=(2, 3), churn=True, mutate=0.04, weights=
 
 
 def plan_chunked(families, nreq=(1, 7)):
-    names = sorted(set(sum([gen.FAMILY[f] for f in families], [])))
+    names = sorted(set(sum([gen.FAMILY[f] for f in families], [])) - {'dump', 'restore', 'sort', 'smembers', 'sdiff', 'sinter', 'sunion'})
 
     def plan(s, rng):
         g = make_gen(s, rng)
